@@ -167,7 +167,7 @@ prop("C02", "other",
      "casts on the decode path are widening, stored field types and the Python conversion type match the SMI type; the six "
      "big-endian folds have the canonical step (acc << 8) | octet over take(h.length) (unknown shapes: inconclusive); "
      "IpAddress octet order; no overflow site in the decoders (shared with C01).",
-     [("C02.dispatch", codec.dispatch), ("C02.pair", codec.pair), ("C02.extent", codec.extent), ("C02.width", codec.width),
+     [("C02.dispatch", codec.dispatch), ("C02.pair", codec.pair), ("C02.extent", codec.extent), ("C02.width", codec.width), ("C02.hdr", codec.hdr_reject),
       ("C02.fold", codec.fold), ("C02.ip", codec.ipaddr), ("C02.sites", codec.hdr_contract)])
 
 prop("C08", "other",
@@ -183,7 +183,7 @@ prop("C15", "other",
      "shift site in SnmpInt::push_ber/decode, the OID conversions and push_tag_len (engine `num`); the length-form table of "
      "push_tag_len (short / 0x81 / 0x82 with the octets in order and ensure_size covering them); the fixed encodings (ZERO_BER, "
      "NULL_BER, EMPTY_BER, version constants) are minimal TLVs; PDU tag tables of encoder and decoder agree with RFC 3416.",
-     [("C15.nowrap", numrules.c15_nowrap), ("C15.len", codec.length_forms), ("C15.pdu", codec.pdu_tags), ("C15.oid", codec.oid_text), ("C15.nested", crypto.nested_lengths), ("C15.mirror", crypto.layout_mirror)])
+     [("C15.nowrap", numrules.c15_nowrap), ("C15.len", codec.length_forms), ("C15.hdr", codec.hdr_reject), ("C15.pdu", codec.pdu_tags), ("C15.oid", codec.oid_text), ("C15.nested", crypto.nested_lengths), ("C15.mirror", crypto.layout_mirror)])
 
 from .rules import crypto  # noqa: E402
 
